@@ -51,21 +51,62 @@ Proof. intro H. apply Z.eqb_neq. unfold py_len. simpl length. lia. Qed.
 Lemma py_len_ge3 {A} (a b d : A) r : Z.eqb (py_len (a :: b :: d :: r)) 2 = false.
 Proof. apply Z.eqb_neq. unfold py_len. simpl length. lia. Qed.
 
+Lemma kids_remove_plain q nd h1 h2 x :
+  remove_child_plain q nd h1 = HOk h2 -> x <> q -> kids h2 x = kids h1 x.
+Proof.
+  unfold remove_child_plain. destruct (memz nd (kids h1 q)); [|discriminate].
+  intros E N. inversion E; subst. rewrite kids_set_kids.
+  destruct (Z.eqb_spec x q); [contradiction|apply kids_set_parent].
+Qed.
+
+Lemma kids_insert_child_other p i c h x : x <> p -> kids (insert_child p i c h) x = kids h x.
+Proof.
+  intro N. unfold insert_child. destruct (index_of c (kids (set_parent c (Some p) h) p)) as [cur|].
+  - destruct (Nat.eqb cur i); [apply kids_set_parent|]. rewrite kids_set_kids.
+    destruct (Z.eqb_spec x p); [contradiction|apply kids_set_parent].
+  - rewrite kids_set_kids. destruct (Z.eqb_spec x p); [contradiction|apply kids_set_parent].
+Qed.
+
+(* the live iteration over to_remove's child list while inserting into self: self <> to_remove, so
+   the iterated list object is never touched and Python's iterator sees exactly the snapshot *)
+Lemma gen_insert_loop_live p pos tr : forall h fuel,
+  tr <> p -> (length (kids h tr) < fuel)%nat ->
+  mfor_live fuel (fun s => kids s tr)
+           (fun c0 (_ : unit) s0 =>
+              match Node_insert_child HG p (Z.of_nat pos) c0 s0 with
+              | MOk _ s1 => MOk (LNext tt) s1
+              | MErr dv_e s1 => MErr dv_e s1
+              | MFuel => MFuel
+              end) O tt h
+  = MOk (LNext tt) (insert_each p pos (kids h tr) h).
+Proof.
+  intros h fuel N Hf.
+  rewrite (mfor_live_stable (fun s => kids s tr) _ (kids h tr) (fun s => kids s tr = kids h tr)).
+  - simpl skipn. apply gen_insert_loop.
+  - intros s Hs. exact Hs.
+  - intros x v s v' s' _ Hs Hb. destruct (gen_insert_child_eq p pos x s) as [w E]. rewrite E in Hb.
+    inversion Hb; subst. rewrite kids_insert_child_other by exact N. exact Hs.
+  - reflexivity.
+  - lia.
+Qed.
+
 (* the tail of the root branch: splice the children of to_remove into self at pos *)
-Lemma root_tail p c tr h3 :
+Lemma root_tail fuel p c tr h3 :
   tr <> p ->
+  (forall h4, remove_child_plain p tr h3 = HOk h4 -> (length (kids h4 tr) < fuel)%nat) ->
   mres_sim c
     (match py_list_index Z.eqb tr (kids h3 p) with
      | Some ix =>
        match Node_remove_child__suppress_unifurcations_False HG p tr h3 with
        | MOk _ s =>
-         match mfor (fun c0 (_ : unit) s0 =>
+         match mfor_live fuel (fun s0 => kids s0 tr)
+                    (fun c0 (_ : unit) s0 =>
                        match Node_insert_child HG p (Z.of_nat ix) c0 s0 with
                        | MOk _ s1 => MOk (LNext tt) s1
                        | MErr dv_e s1 => MErr dv_e s1
                        | MFuel => MFuel
                        end)
-                    (kids (set_kids tr (rev (kids s tr)) s) tr) tt (set_kids tr (rev (kids s tr)) s) with
+                    O tt (set_kids tr (rev (kids s tr)) s) with
          | MOk _ s0 => MOk c (set_kids tr [] s0)
          | MErr dv_e s0 => MErr dv_e s0
          | MFuel => MFuel
@@ -82,21 +123,25 @@ Lemma root_tail p c tr h3 :
      | None => HErr ValueErr h3
      end).
 Proof.
-  intro N. rewrite py_list_index_of.
+  intros N Hf. rewrite py_list_index_of.
   destruct (index_of tr (kids h3 p)) as [pos|]; [|simpl; auto using heq_refl].
   rewrite gen_remove_plain_lift.
-  destruct (remove_child_plain p tr h3) as [h4|e h4|]; simpl; auto using heq_refl.
-  rewrite kids_set_kids, Z.eqb_refl, gen_insert_loop. simpl. split; [reflexivity|].
-  eapply heq_trans.
-  - apply heq_set_kids. apply insert_each_set_kids_comm. exact N.
-  - rewrite set_kids_set_kids. apply heq_refl.
+  destruct (remove_child_plain p tr h3) as [h4|e h4|] eqn:Er; simpl; auto using heq_refl.
+  rewrite gen_insert_loop_live.
+  - rewrite kids_set_kids, Z.eqb_refl. simpl. split; [reflexivity|].
+    eapply heq_trans.
+    + apply heq_set_kids. apply insert_each_set_kids_comm. exact N.
+    + rewrite set_kids_set_kids. apply heq_refl.
+  - exact N.
+  - rewrite kids_set_kids, Z.eqb_refl, rev_length. apply Hf. reflexivity.
 Qed.
 
-Theorem gen_remove_child p c su h :
+Theorem gen_remove_child fuel p c su h :
   memz p (kids h p) = false ->
-  mres_sim c (Node_remove_child HG p c su h) (remove_child p c su h).
+  (forall x, (length (kids h x) < fuel)%nat) ->
+  mres_sim c (Node_remove_child HG fuel p c su h) (remove_child p c su h).
 Proof.
-  intro Hself.
+  intros Hself Hfuel.
   unfold Node_remove_child, remove_child. hsimp. cbv zeta.
   rewrite py_in_memz.
   unfold remove_child_plain at 1.
@@ -143,14 +188,18 @@ Proof.
     rewrite !gen_is_internal.
     unfold Node__get_edge. hsimp. cbv zeta.
     destruct (is_internal h2 k0).
-    + unfold add_len_try. destruct (elen h2 k1), (elen h2 k0); cbv iota; try rewrite <- Ek2; apply root_tail; exact N0.
+    + unfold add_len_try. destruct (elen h2 k1), (elen h2 k0); cbv iota; try rewrite <- Ek2; (apply root_tail; [exact N0|]);
+        intros h4 E4; rewrite (kids_remove_plain p k0 _ h4 k0 E4 N0), ?kids_set_elen; subst h2 h1;
+        rewrite kids_set_kids, kids_set_parent; (destruct (Z.eqb_spec k0 p); [contradiction|]); apply Hfuel.
     + destruct (is_internal h2 k1); [|simpl; auto using heq_refl].
-      unfold add_len_try. destruct (elen h2 k0), (elen h2 k1); cbv iota; try rewrite <- Ek2; apply root_tail; exact N1.
+      unfold add_len_try. destruct (elen h2 k0), (elen h2 k1); cbv iota; try rewrite <- Ek2; (apply root_tail; [exact N1|]);
+        intros h4 E4; rewrite (kids_remove_plain p k1 _ h4 k1 E4 N1), ?kids_set_elen; subst h2 h1;
+        rewrite kids_set_kids, kids_set_parent; (destruct (Z.eqb_spec k1 p); [contradiction|]); apply Hfuel.
 Qed.
 
 (* with suppress_unifurcations=False, and whenever self has a parent, the equality is exact *)
-Theorem gen_remove_child_false p c h :
-  Node_remove_child HG p c false h = lift c (remove_child p c false h).
+Theorem gen_remove_child_false fuel p c h :
+  Node_remove_child HG fuel p c false h = lift c (remove_child p c false h).
 Proof.
   unfold Node_remove_child, remove_child. hsimp. cbv zeta.
   rewrite py_in_memz. unfold remove_child_plain at 1.
